@@ -3,6 +3,7 @@
   Relative to the symbolic hash (free constructor `Digest.H`, DESIGN §3).
 -/
 import CedarProofs.Prefix
+import CedarProps.C01
 
 namespace Cedar.C04
 open Cedar
@@ -194,5 +195,45 @@ def exch (tamper : Bool) : Option Bool :=
   | .error _ => none
 example : exch false = some true := by decide
 example : exch true = some false := by decide
+
+/-! ### Frame boundaries are part of the transcript -/
+
+/-- what the digest is fed for a sequence of cleartext frames: header and payload of each, in order -/
+def fedOf (fs : List (Nat × Bytes)) : Bytes := (fs.map (fun f => encodeRawFrame f.1 f.2)).flatten
+
+def FrameOK (f : Nat × Bytes) : Prop := f.1 ≤ maxEndFlag ∧ f.2.length ≤ maxMessageSize
+
+/-- **transcript_determines_frames**: the bytes fed to a digest determine the SEQUENCE OF FRAMES that
+    were exchanged — their number, their end flags, their lengths and their payloads — not just the
+    concatenated payload. So two endpoints whose digests agree (`same_digest_same_bytes`) saw the
+    same frames: splitting a frame in two, merging two, inserting or removing an empty one, or
+    rewriting an end flag in transit changes the transcript although the message parses the same. -/
+theorem transcript_determines_frames : ∀ (fs gs : List (Nat × Bytes)),
+    (∀ f ∈ fs, FrameOK f) → (∀ g ∈ gs, FrameOK g) → fedOf fs = fedOf gs → fs = gs
+  | [], [], _, _, _ => rfl
+  | [], g :: gs, _, _, h => by
+    simp [fedOf, encodeRawFrame, hdrBytes] at h
+  | f :: fs, [], _, _, h => by
+    simp [fedOf, encodeRawFrame, hdrBytes] at h
+  | f :: fs, g :: gs, hf, hg, h => by
+    have h1 := hf f (List.mem_cons_self ..)
+    have h2 := hg g (List.mem_cons_self ..)
+    have e : encodeRawFrame f.1 f.2 ++ fedOf fs = encodeRawFrame g.1 g.2 ++ fedOf gs := by
+      simpa [fedOf] using h
+    have d1 := C01.frame_roundtrip f.1 f.2 (fedOf fs) h1.1 h1.2
+    have d2 := C01.frame_roundtrip g.1 g.2 (fedOf gs) h2.1 h2.2
+    rw [e, d2] at d1
+    simp only [Except.ok.injEq, Prod.mk.injEq] at d1
+    obtain ⟨e1, e2, e3⟩ := d1
+    have ih := transcript_determines_frames fs gs (fun x hx => hf x (List.mem_cons_of_mem _ hx))
+      (fun x hx => hg x (List.mem_cons_of_mem _ hx)) e3.symm
+    have : f = g := Prod.ext e1.symm e2.symm
+    rw [this, ih]
+
+/-- a message delivered as two frames and the same message delivered as one have different transcripts -/
+example : fedOf [(0, [1, 2]), (1, [3])] ≠ fedOf [(1, [1, 2, 3])] := by decide
+/-- an empty partial frame changes the transcript; so does another accepted end flag -/
+example : fedOf [(0, []), (1, [7])] ≠ fedOf [(1, [7])] := by decide
+example : fedOf [(2, [7])] ≠ fedOf [(1, [7])] := by decide
 
 end Cedar.C04
